@@ -288,9 +288,12 @@ def r04_5(chk, repo, cr):
                     owners.append(owner)
                 if None in owners or owners[0] == owners[1]:
                     continue
-                # only array-valued comparisons: wrapped in all/any or used as a mask
-                wrapped = any(call_name(t) in ("numpy.all", "numpy.any", "all", "any") and P.atom(a).key() in t[2][0].key()
-                              for t in find_atoms(e.value, lambda t: t[0] == "call" and t[2]))
+                # only array-valued comparisons: wrapped in all/any.  The site is the reduction call itself: its event carries the
+                # guards under which it is evaluated, short-circuit operands of the enclosing and/or included
+                # (`len(a) != len(b) or not np.all(a.x == b.x)` reaches the comparison only with equal lengths)
+                ea = e.value.as_atom()
+                wrapped = e.kind == "call" and ea and ea[0] == "call" and ea[2] and call_name(ea) in ("numpy.all", "numpy.any", "all", "any") \
+                    and P.atom(a).key() in ea[2][0].key()
                 if not wrapped:
                     continue
                 sites += 1
@@ -311,6 +314,13 @@ def r04_5(chk, repo, cr):
                     sites += 1
                     chk.ob("R04.5", rel, qual, "per-atom arrays of two molecules are compared with numpy.array_equal (length-safe)",
                            True, node=e.node, fingerprint=f"array_equal:{sorted(owners)}")
+            # tuple(mol.properties[k]) in {tuple(m.properties[k]): ...}: compared as dictionary keys (tuples of any two lengths compare)
+            if e.kind == "test":
+                for t in find_atoms(e.value, lambda t: t[0] == "in" and t[1].as_atom() and call_name(t[1].as_atom()) == "tuple"):
+                    if any(True for _ in find_atoms(t[1], lambda u: u[0] == "attr" and u[2] in ("properties", "atomic_numbers", "elements", "positions"))):
+                        sites += 1
+                        chk.ob("R04.5", rel, qual, "per-atom arrays of two molecules are compared as tuples used as dictionary keys (length-safe)",
+                               True, node=e.node, fingerprint="tuple-key")
     chk.need(sites >= 2, f"expected >= 2 cross-molecule array comparisons, found {sites}")
 
 
